@@ -281,9 +281,9 @@ func c18r3(c *Ctx) {
 }
 
 func c18r4(c *Ctx) {
-	mu := c.P.Field("threadgroup", "ThreadGroup", "mu")
-	wg := c.P.Field("threadgroup", "ThreadGroup", "wg")
-	closed := c.P.Field("threadgroup", "ThreadGroup", "closed")
+	mu := c.P.FieldOr("threadgroup", "ThreadGroup", "mu", isMutex)
+	wg := c.P.FieldOr("threadgroup", "ThreadGroup", "wg", func(t types.Type) bool { return ir.IsNamed(t, "sync", "WaitGroup") })
+	closed := c.P.FieldOr("threadgroup", "ThreadGroup", "closed", func(t types.Type) bool { _, ok := t.Underlying().(*types.Chan); return ok })
 	methods := c.P.MethodsOf("threadgroup", "ThreadGroup")
 	ls := NewLockset(c.P, mu, methods)
 	// every wg.Add / wg.Wait / close(closed) in the whole repository
@@ -432,7 +432,7 @@ func c18r5(c *Ctx) {
 
 func c18r6(c *Ctx) {
 	mu := c.P.Field("syncer", "Syncer", "mu")
-	peers := c.P.Field("syncer", "Syncer", "peers")
+	peers := c.P.FieldOr("syncer", "Syncer", "peers", func(t types.Type) bool { mt, ok := t.Underlying().(*types.Map); return ok && ir.IsNamed(mt.Elem(), ir.PkgPath("syncer"), "Peer") })
 	methods := c.P.MethodsOf("syncer", "Syncer")
 	ls := NewLockset(c.P, mu, methods)
 	n := 0
